@@ -266,6 +266,19 @@ def _numericish(t):
     return t[0] not in ('tuple', 'list', 'set', 'dict', 'concat', 'fstr', 'slice', 'lam', 'fn')
 
 
+_BUILDERS = {('g', n) for n in ('dict', 'list', 'tuple', 'set', 'frozenset', 'str', 'int', 'float', 'bool', 'len', 'sorted', 'range',
+                                'np.array', 'np.asarray', 'np.zeros', 'np.ones', 'np.arange', 'pd.DataFrame', 'pd.Series')}
+
+
+def _never_none(t):
+    """Literals and results of constructors: objects that cannot be None."""
+    if t[0] in ('list', 'tuple', 'dict', 'set', 'fstr', 'concat'):
+        return True
+    if t[0] == 'c':
+        return t[1] is not None
+    return t[0] == 'call' and t[1] in _BUILDERS
+
+
 def cmp(op, a, b):
     # x in (c1, c2) is x == c1 or x == c2 (constant alternatives only)
     if op in ('in', 'not in', 'notin') and b[0] in ('tuple', 'list', 'set') and 1 <= len(b[1]) <= 4 \
@@ -273,6 +286,19 @@ def cmp(op, a, b):
         if op == 'in':
             return nary('or', tuple(cmp('==', a, e) for e in b[1]))
         return nary('and', tuple(cmp('!=', a, e) for e in b[1]))
+    # x in {c1: v1, c2: v2} (a literal lookup table with constant keys) is x == c1 or x == c2
+    if op in ('in', 'not in', 'notin') and b[0] == 'dict' and 1 <= len(b[1]) <= 12 \
+            and all(kv[0] == 'kv' and kv[1][0] == 'c' for kv in b[1]) and a[0] != 'c':
+        if op == 'in':
+            return nary('or', tuple(cmp('==', a, kv[1]) for kv in b[1]))
+        return nary('and', tuple(cmp('!=', a, kv[1]) for kv in b[1]))
+    # identity with None:  a freshly built object is never None; the test distributes over a conditional
+    if op in ('is', 'is not', 'isnot') and (a == ('c', None) or b == ('c', None)) and a != b:
+        x = b if a == ('c', None) else a
+        if _never_none(x):
+            return C(op != 'is')
+        if x[0] == 'ite' and (_never_none(x[2]) or _never_none(x[3]) or x[2] == ('c', None) or x[3] == ('c', None)):
+            return ite(x[1], cmp(op, x[2], ('c', None)), cmp(op, x[3], ('c', None)))
     r = _cmp0(op, a, b)
     # a length is a non-negative integer: 0 < len(x), 1 <= len(x), len(x) != 0 are one test; so are
     # len(x) < 1, len(x) <= 0, len(x) == 0
@@ -551,6 +577,22 @@ def call(f, args=(), kws=()):
     # x.get(k, None) is x.get(k)
     if f[0] == 'attr' and f[2] == 'get' and nokw and len(args) == 2 and args[1] == ('c', None):
         args = args[:1]
+    # {c1: v1, c2: v2, ...}.get(x[, d]) - a literal lookup table with constant keys - is the if-ladder
+    #   v1 if x == c1 else v2 if x == c2 else ... d        (keys of one value share an arm)
+    if f[0] == 'attr' and f[2] == 'get' and nokw and len(args) in (1, 2) and f[1][0] == 'dict' and 1 <= len(f[1][1]) <= 12 \
+            and all(kv[0] == 'kv' and kv[1][0] == 'c' for kv in f[1][1]) and args[0][0] != 'c':
+        out = args[1] if len(args) == 2 else ('c', None)
+        groups = []
+        for kv in f[1][1]:
+            for g in groups:
+                if g[0] == kv[2]:
+                    g[1].append(kv[1])
+                    break
+            else:
+                groups.append((kv[2], [kv[1]]))
+        for v, keys in reversed(groups):
+            out = ite(nary('or', tuple(cmp('==', args[0], k) for k in keys)), v, out)
+        return out
     # range(0, n) is range(n); range(a, b, 1) is range(a, b)
     if f == ('g', 'range') and nokw and len(args) == 3 and args[2] == C(1):
         args = args[:2]
